@@ -5,6 +5,7 @@
 package props
 
 import (
+	"sync/atomic"
 	"fmt"
 	"os"
 	"time"
@@ -39,6 +40,9 @@ type CmdHooks struct {
 }
 
 var Cmd *CmdHooks
+
+// CmdViaFlags is set once the hooks have passed values through the real command's flag objects.
+var CmdViaFlags atomic.Bool
 
 // Main runs one property and never returns normally (Finish exits); the int is for usage errors.
 func Main(id, tier, replay string) int {
